@@ -136,6 +136,12 @@ func killRecoverChild() int {
 		eng.Quiesce(l, 10*time.Millisecond, 5*time.Second)
 	}
 	rep.Events = l.Snapshot()
+	nilID := uuid.Nil.String()
+	for i := range rep.Events {
+		if rep.Events[i].PlanID == nilID && (rep.Events[i].Kind == "begin" || rep.Events[i].Kind == "end") {
+			rep.Events[i].PlanID = id.String()
+		}
+	}
 	return 0
 }
 
